@@ -92,6 +92,7 @@ MUTANTS = [
       "Timestamp::write returns a constant"),
 ]
 
+NEUTRAL_PLACEHOLDER = None
 NEUTRAL = [
     {"id": "n-reorder-rr", "props": ["C02", "C10", "C09", "C01"],
      "edits": [(B, "    // Write TTL\n    if (ttl) {\n        written += enc.write(get_map_index(CDNS::RrMapIndex::ttl));\n        written += enc.write(ttl.value());\n    }\n\n    // Write RDATA index\n    if (rdata_index) {\n        written += enc.write(get_map_index(CDNS::RrMapIndex::rdata_index));\n        written += enc.write(rdata_index.value());\n    }",
@@ -110,4 +111,56 @@ NEUTRAL = [
      "edits": [(EN, "if (value <= 23) {", "if (value < 24) {")]},
     {"id": "n-empty-check-size", "props": ["C02", "C12"],
      "edits": [(CC, "    if (block.get_item_count() == 0)\n        return 0;", "    if (!(block.get_item_count() > 0))\n        return 0;")]},
+]
+
+MUTANTS += [
+    # ---------------------------------------------------------------- C05
+    m("c05-revert-f2", "C05", "R05.1", [(DE, "        if (m_p == m_end)\n            throw CdnsDecoderEnd(\"End of input stream\");\n", "")],
+      "read_to_buffer returns after a 0-byte refill (reverted fix F2)"),
+    m("c05-eof-only", "C05", "R05.1", [(DE, "        if (m_p == m_end)\n            throw CdnsDecoderEnd(\"End of input stream\");\n", "        if (m_input.bad())\n            throw CdnsDecoderEnd(\"End of input stream\");\n")],
+      "post-refill test looks at badbit only", expect_broken=True),
+    m("c05-stale-read", "C05", "R05.2", [(DE, "            for (unsigned i = 0; i < chunk_length; i++) {\n                read_to_buffer();\n", "            for (unsigned i = 0; i < chunk_length; i++) {\n")],
+      "chunk bytes read without refill check"),
+    m("c05-move-then-read", "C05", "R05.2", [(DE, "    additional = m_p[0] & 0x1F;\n    m_p++;", "    m_p++;\n    additional = m_p[-1] & 0x1F;")],
+      "cursor moved before the head byte is read (offset -1 not covered by the refill check)"),
+    m("c05-swallow", "C05", "R05.3", [(CC, "    block.read(m_decoder, m_file_preamble.m_block_parameters);\n    m_blocks_read++;",
+                                       "    try {\n        block.read(m_decoder, m_file_preamble.m_block_parameters);\n    }\n    catch (CdnsDecoderEnd& e) {\n    }\n    m_blocks_read++;")],
+      "read_block swallows end-of-input and returns a partial block"),
+    # ---------------------------------------------------------------- C07
+    m("c07-no-simple-arm", "C07", "R07.1", [(DE, "        case CborType::SIMPLE:\n            if (item_length >= 28 && item_length <= 30) {\n                throw CdnsDecoderException((\"Unsupported CBOR additional information value: \" +\n                                            std::to_string(item_length)).c_str());\n            }\n            read_int(item_length);\n            break;\n\n", "")],
+      "skip_item has no arm for simple values/floats"),
+    m("c07-revert-f3a", "C07", "R07.2", [(DE, "        while (peek_type() != CborType::BREAK) {", "        while (peek_type() != CborType::SIMPLE) {")], "read_string stop-code test against SIMPLE (reverted F3)"),
+    m("c07-revert-f3b", "C07", "R07.2", [(DE, "                    if (peek_type() == CborType::BREAK) {\n                        m_p++;", "                    if (peek_type() == CborType::SIMPLE && (m_p[0] & 0x1F) == 31) {\n                        m_p++;")], "skip_item stop-code test against SIMPLE (reverted F3)"),
+    m("c07-revert-f4", "C07", "R07.3", [(DE, "            read_int(item_length);\n            // A tag is a single data item together with its content\n            skip_item();\n            break;", "            read_int(item_length);\n            break;")], "tag content not skipped (reverted F4)"),
+    m("c07-width", "C07", "R07.4", [(DE, "for (int i = 1 << (item_length - 24); i > 0; i--) {", "for (int i = item_length - 23; i > 0; i--) {")], "argument widths 1,2,3,4 instead of 1,2,4,8"),
+    m("c07-endian", "C07", "R07.4", [(DE, "value += (static_cast<uint64_t>(m_p[0]) << ((i - 1) * 8));", "value += (static_cast<uint64_t>(m_p[0]) << (((1 << (item_length - 24)) - i) * 8));")], "little-endian assembly"),
+    m("c07-reserved", "C07", "R07.4", [(DE, "    if (cbor_type != CborType::UNSIGNED) {\n        throw CdnsDecoderException((\"read_unsigned() called on wrong major type \" +\n                                    std::to_string(static_cast<uint8_t>(cbor_type) >> 5)).c_str());\n    }\n    else if (item_length >= 28) {", "    if (cbor_type != CborType::UNSIGNED) {\n        throw CdnsDecoderException((\"read_unsigned() called on wrong major type \" +\n                                    std::to_string(static_cast<uint8_t>(cbor_type) >> 5)).c_str());\n    }\n    else if (item_length > 28) {")],
+      "read_unsigned accepts reserved additional information 28"),
+    # ---------------------------------------------------------------- C08
+    m("c08-default-noskip", "C08", "R08.1", [(B, "                malformed_items = dec.read_unsigned();\n                break;\n            default:\n                dec.skip_item();\n                break;", "                malformed_items = dec.read_unsigned();\n                break;\n            default:\n                break;")],
+      "BlockStatistics::read ignores unknown keys without skipping their value"),
+    m("c08-extra-dec", "C08", "R08.1", [(B, "            case get_map_index(RrMapIndex::ttl):\n                ttl = dec.read_unsigned();\n                break;", "            case get_map_index(RrMapIndex::ttl):\n                ttl = dec.read_unsigned();\n                length--;\n                break;")],
+      "extra length-- in the ttl case of RR::read"),
+    m("c08-fallthrough", "C08", "R08.1", [(B, "                mm_transport_flags = static_cast<QueryResponseTransportFlagsMask>(dec.read_unsigned());\n                break;\n            case get_map_index(MalformedMessageDataMapIndex::mm_payload):", "                mm_transport_flags = static_cast<QueryResponseTransportFlagsMask>(dec.read_unsigned());\n            case get_map_index(MalformedMessageDataMapIndex::mm_payload):")],
+      "missing break in MalformedMessageData::read"),
+    m("c08-definite-only", "C08", "R08.1", [(B, "    bool is_name_index = false;\n    bool is_classtype_index = false;\n\n    bool indef = false;\n    uint64_t length = dec.read_map_start(indef);\n\n    while (length > 0 || indef) {\n        if (indef && dec.peek_type() == CborType::BREAK) {\n            dec.read_break();\n            break;\n        }\n\n        switch (dec.read_integer()) {\n            case get_map_index(QuestionMapIndex::name_index):",
+                                             "    bool is_name_index = false;\n    bool is_classtype_index = false;\n\n    bool indef = false;\n    uint64_t length = dec.read_map_start(indef);\n\n    while (length > 0) {\n        if (indef && dec.peek_type() == CborType::BREAK) {\n            dec.read_break();\n            break;\n        }\n\n        switch (dec.read_integer()) {\n            case get_map_index(QuestionMapIndex::name_index):")],
+      "Question::read handles only definite-length maps"),
+    m("c08-conditional-consume", "C08", "R08.1", [(B, "            case get_map_index(QueryResponseMapIndex::client_port):\n                client_port = dec.read_unsigned();\n                break;", "            case get_map_index(QueryResponseMapIndex::client_port):\n                if (!client_port)\n                    client_port = dec.read_unsigned();\n                break;")],
+      "value consumed only if the member is not set yet (duplicate key desynchronises)"),
+    m("c08-no-reset", "C08", "R08.4", [(B, "void CDNS::RR::read(CdnsDecoder& dec)\n{\n    reset();", "void CDNS::RR::read(CdnsDecoder& dec)\n{")], "RR::read keeps members of a previous read"),
+    m("c08-offset-in-loop", "C08", "R08.2", [(B, "                dec.read_array([this](CdnsDecoder& dec){\n                    MalformedMessage tmp;\n                    tmp.read(dec);\n                    m_malformed_messages.push_back(std::move(tmp));\n                });",
+                                              "                dec.read_array([this](CdnsDecoder& dec){\n                    MalformedMessage tmp;\n                    tmp.read(dec);\n                    if (tmp.time_offset) {\n                        uint64_t off = tmp.time_offset->m_secs;\n                        tmp.time_offset = m_block_preamble.earliest_time;\n                        tmp.time_offset->add_time_offset(off, m_block_parameters.storage_parameters.ticks_per_second);\n                    }\n                    m_malformed_messages.push_back(std::move(tmp));\n                });"),
+                                             (B, "    for (auto& mm : m_malformed_messages) {\n        if (mm.time_offset) {\n            uint64_t offset = mm.time_offset->m_secs;\n            mm.time_offset = m_block_preamble.earliest_time;\n            mm.time_offset->add_time_offset(offset, m_block_parameters.storage_parameters.ticks_per_second);\n        }\n    }\n\n", "")],
+      "malformed-message offsets resolved while the map is still being read (depends on member order)"),
+]
+
+NEUTRAL += [
+    {"id": "n-for-header-dec", "props": ["C08", "C09", "C01"],
+     "edits": [(B, "    bool is_name_index = false;\n    bool is_classtype_index = false;\n\n    bool indef = false;\n    uint64_t length = dec.read_map_start(indef);\n\n    while (length > 0 || indef) {\n        if (indef && dec.peek_type() == CborType::BREAK) {\n            dec.read_break();\n            break;\n        }\n\n        switch (dec.read_integer()) {\n            case get_map_index(QuestionMapIndex::name_index):\n                name_index = dec.read_unsigned();\n                is_name_index = true;\n                break;\n            case get_map_index(QuestionMapIndex::classtype_index):\n                classtype_index = dec.read_unsigned();\n                is_classtype_index = true;\n                break;\n            default:\n                dec.skip_item();\n                break;\n        }\n\n        length--;\n    }",
+                "    bool is_name_index = false;\n    bool is_classtype_index = false;\n\n    bool indef = false;\n    uint64_t length = dec.read_map_start(indef);\n\n    for (; indef || length != 0; length--) {\n        if (indef && dec.peek_type() == CborType::BREAK) {\n            dec.read_break();\n            break;\n        }\n\n        switch (dec.read_integer()) {\n            case get_map_index(QuestionMapIndex::classtype_index):\n                classtype_index = dec.read_unsigned();\n                is_classtype_index = true;\n                break;\n            case get_map_index(QuestionMapIndex::name_index):\n                name_index = dec.read_unsigned();\n                is_name_index = true;\n                break;\n            default:\n                dec.skip_item();\n                break;\n        }\n    }")]},
+    {"id": "n-gcount-test", "props": ["C05", "C03"],
+     "edits": [(DE, "        if (m_p == m_end)\n            throw CdnsDecoderEnd(\"End of input stream\");", "        if (m_input.gcount() == 0)\n            throw CdnsDecoderEnd(\"End of input stream\");")]},
+    {"id": "n-skip-break-explicit", "props": ["C07", "C08"],
+     "edits": [(DE, "                    if (peek_type() == CborType::BREAK) {\n                        m_p++;\n                        break;\n                    }", "                    if (peek_type() == CborType::BREAK) {\n                        read_break();\n                        break;\n                    }")]},
 ]
